@@ -6,10 +6,20 @@
    bit-exactly to the crate by the correspondence check) and with real numbers
    ([opsR]).  [events_spec] is the eager list written from the property text.
    This file holds only statements closed by [exact] of a lemma from Proofs/,
-   pins of the constants, and concrete examples. *)
+   pins of the constants, and concrete examples.
+   Sections: T20a (lazy machine = eager list, any arithmetic), no-panic
+   characterisation, structure and float closed forms, T20b (exact
+   arithmetic), T20c (binary64: loop guards, weak chronological order),
+   concrete streams, and "T20c, continued" (binary64 error analysis,
+   Proofs/SliderEventsRound*.v: rounding of the running sum and of the
+   progress, tick times forward and mirrored, repeat after the ticks, span
+   start / repeat / tail / last tick against their exact closed forms, ticks
+   identically placed on every span) with its own non-vacuity examples. *)
 From RM Require Import Model.SliderEvents Model.Drv20 Gen.Generated.
 From RM Require Import Proofs.SliderEventsFacts Proofs.SliderEventsIEEE Proofs.SliderEventsExact.
 From RM Require Import Proofs.SliderEventsNeg Proofs.SliderEventsMono.
+From RM Require Import Proofs.SliderEventsRound Proofs.SliderEventsRoundTime Proofs.SliderEventsRoundSpans
+     Proofs.SliderEventsRoundGuard Proofs.SliderEventsRoundStream Proofs.SliderEventsRoundEx.
 From Flocq Require Import BinarySingleNaN.
 From Coq Require Import Reals Sorting.Sorted.
 Open Scope Z_scope.
@@ -230,20 +240,28 @@ Print Assumptions C20_exact_tick_fuel.
 
 (* ---------- T20c: binary64 ---------- *)
 
-(* PARTIAL.  Full statement wanted for binary64:
-     "tick j of a span lies at j * tick_dist up to the rounding of the running
-      sum, never within 10 ms of travel of the span end, and the tick times
-      are non-decreasing within a span".
-   Proved below: (1) the tick distances are the j-fold running sums
+(* Full statement wanted for binary64:
+     "tick j of a span lies at (j+1) * tick_dist up to the rounding of the
+      running sum, never within 10 ms of travel of the span end, and the tick
+      times are non-decreasing within a span, the repeat not before them".
+   Proved in this section: (1) the tick distances are the j-fold running sums
    d += tick_dist and every one satisfies  d <= len  and  not (d >= len -
    mdfe), the literal loop guards of the source -- so "never within 10 ms of
    travel of the span end" holds in binary64 exactly as the code tests it;
    (2) weak chronological order of the ticks of a span (rounding can merge
    neighbouring ticks, so "strictly" is false in binary64), provided no tick
    time overflows.
-   Missing: the rounding bound  |rsum td td j - (j+1)*td| <= j * ulp(len)/2
-   of the running sum (an error analysis of j additions), and the order of
-   the repeat relative to the last tick of its span in binary64. *)
+   Proved in the section "T20c, continued" at the end of this file: the
+   rounding bound  |d_j - (j+1)*td| <= j * ulp(len)/2  of the running sum and
+   of the progress value, the tick times against their exact closed forms
+   (forward and mirrored), the guards as real inequalities, the order of the
+   repeat relative to the ticks of its span, span start / repeat / tail /
+   legacy last tick against  start + k*dur  and  max(start + n*dur/2, start +
+   n*dur - 36), and "identically placed on every span" read off the stream.
+   What remains outside: every bound on a TIME assumes that the span's end
+   time does not overflow and that the span duration is finite and >= 0
+   (with an infinite or negative duration the stream is still the one of
+   C20_shape, but no order or error bound is claimed). *)
 Theorem C20_ieee_ticks_partial :
   forall (len mdfe td : F64) (ds : list F64),
   dists_ok ops64 len mdfe td ds ->
@@ -315,3 +333,431 @@ Proof. vm_compute. reflexivity. Qed.
 Example C20_out_of_fuel_is_visible :
   dump_out dump_evs (run ops64 true 50 3 (mkP (f 0) (f 1000) (f 1) (f 300) (f 1000) 2) junk3) = [2].
 Proof. vm_compute. reflexivity. Qed.
+
+(* ---------- T20c, continued: binary64 error analysis ---------- *)
+
+(* Vocabulary.  [ulp64 x] is the unit in the last place of the real x in
+   binary64 (Flocq's ulp: 2^(e-53) for 2^(e-1) <= |x| < 2^e, and 2^-1074 in the
+   subnormal range), [pow2 k] is 2^k. *)
+Example C20_ulp64_is_flocq_ulp : forall x : R, ulp64 x = Ulp.ulp Zaux.radix2 (SpecFloat.fexp 53 1024) x.
+Proof. reflexivity. Qed.
+Example C20_pow2_is_bpow : forall k : Z, pow2 k = Raux.bpow Zaux.radix2 k.
+Proof. reflexivity. Qed.
+Example C20_ulp64_of_1 : ulp64 1 = pow2 (-52).
+Proof. exact ulp64_1. Qed.
+Example C20_ulp64_of_1000 : ulp64 1000 = pow2 (-43).
+Proof. exact ulp64_1000. Qed.
+Theorem C20_ulp64_binade :
+  forall (x : R) (e : Z), -1021 <= e -> (pow2 (e - 1) <= Rabs x < pow2 e)%R -> ulp64 x = pow2 (e - 53).
+Proof. exact ulp64_binade. Qed.
+Print Assumptions C20_ulp64_binade.
+(* for a normal number an ulp is at most 2^-52 of the magnitude *)
+Theorem C20_ulp64_relative :
+  forall x : R, (pow2 (-1022) <= Rabs x)%R -> (ulp64 x <= pow2 (-52) * Rabs x)%R.
+Proof. exact ulp64_rel. Qed.
+Print Assumptions C20_ulp64_relative.
+
+(* The effective length min(MAX_LEN, total_dist) is finite, in [0, 100000],
+   whenever new() does not panic: the hypothesis [is_finite len = true] of the
+   theorems below always holds for the length of an iterator. *)
+Theorem C20_ieee_length_finite :
+  forall p : params F64, D.lt (p_total p) D.zero = false ->
+  is_finite (sp_len ops64 p) = true /\ (0 <= B2R (sp_len ops64 p) <= 100000)%R.
+Proof. exact sp_len_finite. Qed.
+Print Assumptions C20_ieee_length_finite.
+
+(* (1) Rounding of the running sum.  [ds] are the tick distances of a span
+   (C20_shape: [dists_ok]); tick j -- counted from 0 -- is the running sum of
+   j additions.  It exists only if 0.0 < td and td <= len, so td is finite and
+   positive; it is finite, lies in (0, len], and differs from the exact
+   multiple (j+1)*td by at most j half-ulps of len: each of the j additions is
+   correctly rounded and its result passed the guard d <= len. *)
+Theorem C20_ieee_tick_distance_error :
+  forall (len mdfe td : F64) (ds : list F64),
+  is_finite len = true -> dists_ok ops64 len mdfe td ds ->
+  forall j : nat, (j < length ds)%nat ->
+  let d := nth j ds D.zero in
+  is_finite td = true /\ (0 < B2R td)%R /\
+  d = rsum ops64 td td j /\ is_finite d = true /\ (0 < B2R d <= B2R len)%R /\
+  (Rabs (B2R d - INR (S j) * B2R td) <= INR j * (/ 2 * ulp64 (B2R len)))%R.
+Proof. exact tick_distance_error. Qed.
+Print Assumptions C20_ieee_tick_distance_error.
+
+(* the same, relative to a normal length:  j * 2^-53 * len *)
+Theorem C20_ieee_tick_distance_error_relative :
+  forall (len mdfe td : F64) (ds : list F64),
+  is_finite len = true -> (pow2 (-1022) <= B2R len)%R -> dists_ok ops64 len mdfe td ds ->
+  forall j : nat, (j < length ds)%nat ->
+  (Rabs (B2R (nth j ds D.zero) - INR (S j) * B2R td) <= INR j * (pow2 (-53) * B2R len))%R.
+Proof. exact tick_distance_error_rel. Qed.
+Print Assumptions C20_ieee_tick_distance_error_relative.
+
+(* progress value of tick j:  d / len  with one more rounding of a quotient in
+   (0, 1].   prog_err len j = j * ulp(len) / (2 * len) + 2^-53 *)
+Example C20_prog_err_def :
+  forall (len : R) (j : nat), prog_err len j = (INR j * (/ 2 * ulp64 len) / len + pow2 (-53))%R.
+Proof. reflexivity. Qed.
+Theorem C20_ieee_tick_progress_error :
+  forall (len mdfe td : F64) (ds : list F64),
+  is_finite len = true -> dists_ok ops64 len mdfe td ds ->
+  forall j : nat, (j < length ds)%nat ->
+  let p := D.div (nth j ds D.zero) len in
+  is_finite p = true /\ (0 <= B2R p <= 1)%R /\
+  (Rabs (B2R p - INR (S j) * B2R td / B2R len) <= prog_err (B2R len) j)%R.
+Proof. exact tick_progress_error. Qed.
+Print Assumptions C20_ieee_tick_progress_error.
+
+(* "never within 10 ms of travel of the span end", as real inequalities: with
+   a finite  len - mdfe  (always so when len and mdfe are finite and >= 0)
+   every tick distance is <= len and strictly below the rounded difference
+   len - mdfe, and the exact multiple is below it up to the rounding of the
+   running sum *)
+Theorem C20_ieee_length_minus_mdfe_finite :
+  forall len mdfe : F64,
+  is_finite len = true -> is_finite mdfe = true -> (0 <= B2R len)%R -> (0 <= B2R mdfe)%R ->
+  is_finite (D.sub len mdfe) = true /\
+  B2R (D.sub len mdfe) =
+    Generic_fmt.round Zaux.radix2 (SpecFloat.fexp 53 1024) (round_mode mode_NE) (B2R len - B2R mdfe).
+Proof. exact sub_nonneg_fin. Qed.
+Print Assumptions C20_ieee_length_minus_mdfe_finite.
+Theorem C20_ieee_tick_before_end :
+  forall (len mdfe td : F64) (ds : list F64),
+  is_finite len = true -> is_finite (D.sub len mdfe) = true -> dists_ok ops64 len mdfe td ds ->
+  forall j : nat, (j < length ds)%nat ->
+  let d := nth j ds D.zero in
+  (B2R d <= B2R len)%R /\ (B2R d < B2R (D.sub len mdfe))%R /\
+  (INR (S j) * B2R td < B2R (D.sub len mdfe) + INR j * (/ 2 * ulp64 (B2R len)))%R /\
+  (INR (S j) * B2R td <= B2R len + INR j * (/ 2 * ulp64 (B2R len)))%R.
+Proof. exact tick_before_end. Qed.
+Print Assumptions C20_ieee_tick_before_end.
+
+(* ... and no tick is missing: the running sum number k = (number of ticks)
+   fails the guard; when it is finite it lies within k half-ulps (of the larger
+   of len and itself) of (k+1)*td and is NOT both <= len and < len - mdfe *)
+Theorem C20_ieee_first_rejected_sum :
+  forall (len mdfe td : F64) (ds : list F64),
+  is_finite len = true -> is_finite td = true -> (0 < B2R td)%R -> dists_ok ops64 len mdfe td ds ->
+  let k := length ds in
+  let d := rsum ops64 td td k in
+  guard ops64 len mdfe d = false /\
+  (is_finite d = true ->
+   (Rabs (B2R d - INR (S k) * B2R td) <= INR k * (/ 2 * ulp64 (Rmax (B2R len) (B2R d))))%R /\
+   (is_finite (D.sub len mdfe) = true -> ~ (B2R d <= B2R len /\ B2R d < B2R (D.sub len mdfe))%R)).
+Proof. exact first_rejected_sum. Qed.
+Print Assumptions C20_ieee_first_rejected_sum.
+(* sharper bound for that sum: only its LAST addition can leave (0, len] *)
+Theorem C20_ieee_first_rejected_sum_step :
+  forall (len mdfe td : F64) (ds : list F64),
+  is_finite len = true -> is_finite td = true -> (0 < B2R td)%R -> dists_ok ops64 len mdfe td ds ->
+  let k := length ds in
+  let d := rsum ops64 td td k in
+  is_finite d = true ->
+  (Rabs (B2R d - INR (S k) * B2R td)
+     <= INR (Nat.pred k) * (/ 2 * ulp64 (B2R len))
+        + (match k with O => 0 | S _ => / 2 * ulp64 (B2R d) end))%R.
+Proof. exact first_rejected_sum_step. Qed.
+Print Assumptions C20_ieee_first_rejected_sum_step.
+
+(* (2) Tick times.  Source:  time = span_start + time_progress * dur  with
+   time_progress = progress (forward span) or 1.0 - progress (reversed span).
+   One no-overflow hypothesis: the span's END time span_start + dur (the time
+   of its repeat) is finite; the span duration is finite and >= 0.  Then the
+   time of tick j is finite, lies between the span start and the span end, and
+   is within [time_err] of the exact closed form  span_start + TP * dur ,
+   TP = (j+1)*td/len  on a forward span,  1 - (j+1)*td/len  on a reversed one
+   (same bound, plus 2^-53 * dur for the extra subtraction):
+     time_err len dur mag rv j
+       = (prog_err len j + [rv] 2^-53) * dur + ulp(dur)/2 + ulp(mag)/2 ,
+     mag = max(|span_start|, |span_end|). *)
+Example C20_time_err_def :
+  forall (len dur mag : R) (rv : bool) (j : nat),
+  time_err len dur mag rv j =
+  ((prog_err len j + (if rv then pow2 (-53) else 0)) * dur + / 2 * ulp64 dur + / 2 * ulp64 mag)%R.
+Proof. reflexivity. Qed.
+Example C20_span_mag_def : forall a b : R, span_mag a b = Rmax (Rabs a) (Rabs b).
+Proof. reflexivity. Qed.
+Theorem C20_ieee_tick_time_error :
+  forall (start dur len mdfe td : F64) (ds : list F64) (s : Z),
+  is_finite len = true -> dists_ok ops64 len mdfe td ds ->
+  is_finite dur = true -> (0 <= B2R dur)%R ->
+  let sst := sp_sst ops64 start dur s in
+  is_finite (D.add sst dur) = true ->
+  forall j : nat, (j < length ds)%nat ->
+  let e := sp_tick ops64 start dur len s (nth j ds D.zero) in
+  let P := (INR (S j) * B2R td / B2R len)%R in
+  is_finite (ev_time e) = true /\
+  (B2R sst <= B2R (ev_time e) <= B2R (D.add sst dur))%R /\
+  (Rabs (B2R (ev_time e) - (B2R sst + (if Z.odd s then 1 - P else P) * B2R dur))
+     <= time_err (B2R len) (B2R dur) (span_mag (B2R sst) (B2R (D.add sst dur))) (Z.odd s) j)%R.
+Proof. exact tick_time_error. Qed.
+Print Assumptions C20_ieee_tick_time_error.
+
+(* (3) Order of the repeat relative to the ticks of its span: under the same
+   hypotheses every event of the span (ticks, and the repeat unless it is the
+   last span) has a finite time between the span start and the repeat's time
+   span_start + dur, and the whole span is in weak chronological order. *)
+Theorem C20_ieee_span_weakly_chronological :
+  forall (start dur len mdfe td : F64) (ds : list F64) (n s : Z),
+  is_finite len = true -> dists_ok ops64 len mdfe td ds ->
+  is_finite dur = true -> (0 <= B2R dur)%R ->
+  is_finite (D.add (sp_sst ops64 start dur s) dur) = true ->
+  Forall (fun e => is_finite (ev_time e) = true) (sp_span ops64 start dur len n ds s) /\
+  Forall (fun e => Fle (sp_sst ops64 start dur s) (ev_time e) /\
+                   Fle (ev_time e) (ev_time (sp_repeat ops64 start dur s)))
+         (sp_span ops64 start dur len n ds s) /\
+  StronglySorted Fle (map ev_time (sp_span ops64 start dur len n ds s)).
+Proof. exact span_weakly_chronological. Qed.
+Print Assumptions C20_ieee_span_weakly_chronological.
+
+(* span start, repeat and tail against  start + k * dur  (k an i32, in fact
+   any |k| < 2^53): one rounding of the product, one per addition *)
+Theorem C20_ieee_span_start_error :
+  forall (start dur : F64) (s : Z), Z.abs s < 2 ^ 53 ->
+  let sst := sp_sst ops64 start dur s in
+  is_finite sst = true ->
+  (Rabs (B2R sst - (B2R start + IZR s * B2R dur))
+     <= / 2 * ulp64 (B2R (D.mul (D.of_Z s) dur)) + / 2 * ulp64 (B2R sst))%R.
+Proof. exact span_start_error. Qed.
+Print Assumptions C20_ieee_span_start_error.
+Theorem C20_ieee_repeat_time_error :
+  forall (start dur : F64) (s : Z), Z.abs s < 2 ^ 53 ->
+  let sst := sp_sst ops64 start dur s in
+  let t := ev_time (sp_repeat ops64 start dur s) in
+  is_finite t = true ->
+  (Rabs (B2R t - (B2R start + IZR (s + 1) * B2R dur))
+     <= / 2 * ulp64 (B2R (D.mul (D.of_Z s) dur)) + / 2 * ulp64 (B2R sst) + / 2 * ulp64 (B2R t))%R.
+Proof. exact repeat_time_error. Qed.
+Print Assumptions C20_ieee_repeat_time_error.
+Theorem C20_ieee_tail_time_error :
+  forall (start dur : F64) (n : Z), Z.abs n < 2 ^ 53 ->
+  let t := ev_time (sp_tail ops64 start dur n) in
+  is_finite t = true ->
+  (Rabs (B2R t - (B2R start + IZR n * B2R dur))
+     <= / 2 * ulp64 (B2R (D.mul (D.of_Z n) dur)) + / 2 * ulp64 (B2R t))%R.
+Proof. exact tail_time_error. Qed.
+Print Assumptions C20_ieee_tail_time_error.
+
+(* legacy last tick: its time is the real maximum of the two float branches
+   a = start + (n*dur)/2  and  b = ((start + (n-1)*dur) + dur) + (-36.0), each
+   within a few half-ulps of its exact value; hence the time is within
+   max(ea, eb) of  max(start + n*dur/2, start + n*dur - 36) *)
+Theorem C20_ieee_last_tick_time_error :
+  forall (start dur : F64) (n : Z),
+  Z.abs n < 2 ^ 53 -> Z.abs (n - 1) < 2 ^ 53 ->
+  let total := D.mul (D.of_Z n) dur in
+  let half := D.div total (D.of_Z 2) in
+  let a := D.add start half in
+  let fsst := sp_sst ops64 start dur (n - 1) in
+  let send := D.add fsst dur in
+  let b := D.add send (c_tail_leniency ops64) in
+  let ea := (/ 2 * ulp64 (B2R total) + / 2 * ulp64 (B2R half) + / 2 * ulp64 (B2R a))%R in
+  let eb := (/ 2 * ulp64 (B2R (D.mul (D.of_Z (n - 1)) dur)) + / 2 * ulp64 (B2R fsst)
+             + / 2 * ulp64 (B2R send) + / 2 * ulp64 (B2R b))%R in
+  is_finite a = true -> is_finite b = true ->
+  let t := ev_time (sp_last_tick ops64 start dur n) in
+  is_finite t = true /\ B2R t = Rmax (B2R a) (B2R b) /\
+  (Rabs (B2R a - (B2R start + IZR n * B2R dur / 2)) <= ea)%R /\
+  (Rabs (B2R b - (B2R start + IZR n * B2R dur - 36)) <= eb)%R /\
+  (Rabs (B2R t - Rmax (B2R start + IZR n * B2R dur / 2) (B2R start + IZR n * B2R dur - 36))
+     <= Rmax ea eb)%R.
+Proof. exact last_tick_time_error. Qed.
+Print Assumptions C20_ieee_last_tick_time_error.
+
+(* ... and its progress  (time - final_span_start) / dur , mirrored (1 - ..)
+   when the span count is even, against X = (T - FS) / dur *)
+Theorem C20_ieee_last_tick_progress_error :
+  forall (start dur : F64) (n : Z),
+  Z.abs n < 2 ^ 53 -> Z.abs (n - 1) < 2 ^ 53 -> (0 < B2R dur)%R ->
+  let total := D.mul (D.of_Z n) dur in
+  let half := D.div total (D.of_Z 2) in
+  let a := D.add start half in
+  let fsst := sp_sst ops64 start dur (n - 1) in
+  let send := D.add fsst dur in
+  let b := D.add send (c_tail_leniency ops64) in
+  let ea := (/ 2 * ulp64 (B2R total) + / 2 * ulp64 (B2R half) + / 2 * ulp64 (B2R a))%R in
+  let eb := (/ 2 * ulp64 (B2R (D.mul (D.of_Z (n - 1)) dur)) + / 2 * ulp64 (B2R fsst)
+             + / 2 * ulp64 (B2R send) + / 2 * ulp64 (B2R b))%R in
+  let efs := (/ 2 * ulp64 (B2R (D.mul (D.of_Z (n - 1)) dur)) + / 2 * ulp64 (B2R fsst))%R in
+  is_finite a = true -> is_finite b = true ->
+  let e := sp_last_tick ops64 start dur n in
+  let diff := D.sub (ev_time e) fsst in
+  let q := D.div diff dur in
+  is_finite (ev_prog e) = true ->
+  let T := Rmax (B2R start + IZR n * B2R dur / 2) (B2R start + IZR n * B2R dur - 36) in
+  let FS := (B2R start + IZR (n - 1) * B2R dur)%R in
+  let X := ((T - FS) / B2R dur)%R in
+  (Rabs (B2R (ev_prog e) - (if Z.even n then 1 - X else X))
+     <= (Rmax ea eb + efs + / 2 * ulp64 (B2R diff)) / B2R dur + / 2 * ulp64 (B2R q)
+        + (if Z.even n then / 2 * ulp64 (B2R (ev_prog e)) else 0))%R.
+Proof. exact last_tick_progress_error. Qed.
+Print Assumptions C20_ieee_last_tick_progress_error.
+
+(* (4) "Identically placed on every span", read off the stream itself.
+   [ticks_of s evs] are the events of kind Tick with span index s, in stream
+   order.  In any completed stream the ticks of span s carry the progress
+   values of the ticks of span 0 bit for bit -- same order on even spans,
+   reversed (mirrored in time) on odd spans --, there are equally many, and
+   each tick's time is  span_start(s) + time_progress * dur  as a float
+   expression.  (Any arithmetic; stated for binary64.) *)
+Example C20_ticks_of_def :
+  forall (s : Z) (evs : list (event F64)),
+  ticks_of s evs = filter (fun e => match ev_kind e with KTick => ev_span e =? s | _ => false end) evs.
+Proof. reflexivity. Qed.
+Theorem C20_ieee_same_ticks_every_span :
+  forall (tf : nat) (p : params F64) (evs : list (event F64)),
+  events_spec ops64 tf p = Done evs ->
+  forall s : Z, 0 <= s < p_n p ->
+  map ev_prog (ticks_of s evs) =
+    (if Z.odd s then rev (map ev_prog (ticks_of 0 evs)) else map ev_prog (ticks_of 0 evs)) /\
+  length (ticks_of s evs) = length (ticks_of 0 evs) /\
+  Forall (fun e => ev_sst e = sp_sst ops64 (p_start p) (p_dur p) s /\
+                   ev_time e = D.add (ev_sst e)
+                                 (D.mul (if Z.odd s then D.sub (D.of_Z 1) (ev_prog e) else ev_prog e) (p_dur p)))
+         (ticks_of s evs).
+Proof. exact (same_ticks_every_span ops64). Qed.
+Print Assumptions C20_ieee_same_ticks_every_span.
+
+(* The bounds, read off a completed stream: the ticks of span s in travel
+   order are the events  sp_tick s d_j  of ONE list of distances satisfying
+   [dists_ok] for the finite effective length ... *)
+Theorem C20_ieee_stream_ticks :
+  forall (tf : nat) (p : params F64) (evs : list (event F64)),
+  events_spec ops64 tf p = Done evs ->
+  exists td ds,
+    D.clamp_chk (p_td p) (c_zero ops64) (sp_len ops64 p) = Done td /\
+    is_finite (sp_len ops64 p) = true /\ (0 <= B2R (sp_len ops64 p) <= 100000)%R /\
+    (0 < p_n p -> dists_ok ops64 (sp_len ops64 p) (sp_mdfe ops64 p) td ds) /\
+    forall s : Z, 0 <= s < p_n p ->
+      (if Z.odd s then rev (ticks_of s evs) else ticks_of s evs)
+      = map (sp_tick ops64 (p_start p) (p_dur p) (sp_len ops64 p) s) ds.
+Proof. exact stream_ticks. Qed.
+Print Assumptions C20_ieee_stream_ticks.
+
+(* ... so tick j (travel order) of every span has progress within prog_err of
+   (j+1)*td/len, unconditionally (no overflow is possible: len <= 100000) ... *)
+Theorem C20_ieee_stream_tick_progress :
+  forall (tf : nat) (p : params F64) (evs : list (event F64)),
+  events_spec ops64 tf p = Done evs ->
+  exists td,
+    D.clamp_chk (p_td p) (c_zero ops64) (sp_len ops64 p) = Done td /\
+    forall s : Z, 0 <= s < p_n p -> forall (j : nat) (e : event F64),
+      nth_error (if Z.odd s then rev (ticks_of s evs) else ticks_of s evs) j = Some e ->
+      is_finite (ev_prog e) = true /\ (0 <= B2R (ev_prog e) <= 1)%R /\
+      (Rabs (B2R (ev_prog e) - INR (S j) * B2R td / B2R (sp_len ops64 p))
+         <= prog_err (B2R (sp_len ops64 p)) j)%R.
+Proof. exact stream_tick_progress. Qed.
+Print Assumptions C20_ieee_stream_tick_progress.
+
+(* ... and a time within time_err of the closed form whenever the span's end
+   time is finite (span duration finite and >= 0) *)
+Theorem C20_ieee_stream_tick_time :
+  forall (tf : nat) (p : params F64) (evs : list (event F64)),
+  events_spec ops64 tf p = Done evs ->
+  is_finite (p_dur p) = true -> (0 <= B2R (p_dur p))%R ->
+  exists td,
+    D.clamp_chk (p_td p) (c_zero ops64) (sp_len ops64 p) = Done td /\
+    forall s : Z, 0 <= s < p_n p ->
+      let sst := sp_sst ops64 (p_start p) (p_dur p) s in
+      let send := D.add sst (p_dur p) in
+      is_finite send = true ->
+      forall (j : nat) (e : event F64),
+      nth_error (if Z.odd s then rev (ticks_of s evs) else ticks_of s evs) j = Some e ->
+      let P := (INR (S j) * B2R td / B2R (sp_len ops64 p))%R in
+      is_finite (ev_time e) = true /\ (B2R sst <= B2R (ev_time e) <= B2R send)%R /\
+      (Rabs (B2R (ev_time e) - (B2R sst + (if Z.odd s then 1 - P else P) * B2R (p_dur p)))
+         <= time_err (B2R (sp_len ops64 p)) (B2R (p_dur p)) (span_mag (B2R sst) (B2R send)) (Z.odd s) j)%R.
+Proof. exact stream_tick_time. Qed.
+Print Assumptions C20_ieee_stream_tick_time.
+
+(* ---------- non-vacuity of the T20c theorems ---------- *)
+
+(* The slider of C20_nonvacuous (the crate's unit test non_even_ticks): start
+   0, span duration 1000, velocity 1, tick distance 300, length 1000, 2 spans.
+   Facts computed on SpecFloat values, booleans and dumps only. *)
+Example C20_round_example_params :
+  exP = mkP (f 0) (f 1000) (f 1) (f 300) (f 1000) 2 /\
+  exLen = sp_len ops64 exP /\ exMdfe = sp_mdfe ops64 exP.
+Proof. split; [reflexivity|]. split; reflexivity. Qed.
+Example C20_round_example_length :
+  B2SF exLen = SpecFloat.S754_finite false 8796093022208000 (-43) /\
+  B2R exLen = 1000%R /\ is_finite exLen = true.
+Proof. exact (conj ex_len_sf ex_len_R). Qed.
+Example C20_round_example_ticks :
+  dump_out (fun l => [Z.of_nat (length (ticks_of 0 l)); Z.of_nat (length (ticks_of 1 l))])
+           (events_spec ops64 50 exP) = [0; 3; 3].
+Proof. vm_compute. reflexivity. Qed.
+(* no overflow: both span ends, len - mdfe, the tail, both branches of the last tick *)
+Example C20_round_example_no_overflow :
+  [is_finite (D.add (sp_sst ops64 (p_start exP) (p_dur exP) 0) (p_dur exP));
+   is_finite (D.add (sp_sst ops64 (p_start exP) (p_dur exP) 1) (p_dur exP));
+   is_finite (D.sub exLen exMdfe);
+   is_finite (ev_time (sp_tail ops64 (p_start exP) (p_dur exP) 2));
+   is_finite (D.add (p_start exP) (D.div (D.mul (D.of_Z 2) (p_dur exP)) (D.of_Z 2)));
+   is_finite (D.add (D.add (sp_sst ops64 (p_start exP) (p_dur exP) (2 - 1)) (p_dur exP)) (c_tail_leniency ops64));
+   is_finite (ev_prog (sp_last_tick ops64 (p_start exP) (p_dur exP) 2))]
+  = [true; true; true; true; true; true; true].
+Proof. vm_compute. reflexivity. Qed.
+
+(* hypotheses of C20_ieee_length_finite and C20_ieee_length_minus_mdfe_finite
+   (length 1000, minimum distance from the end 1 * 10.0 = 10) *)
+Example C20_round_example_mdfe :
+  B2SF exMdfe = SpecFloat.S754_finite false 5629499534213120 (-49) /\ B2R exMdfe = 10%R.
+Proof. exact (conj ex_mdfe_sf (proj1 ex_mdfe_R)). Qed.
+Example C20_ieee_length_theorems_nonvacuous :
+  D.lt (p_total exP) D.zero = false /\
+  is_finite exLen = true /\ is_finite exMdfe = true /\ (0 <= B2R exLen)%R /\ (0 <= B2R exMdfe)%R.
+Proof. exact ex_len_hyps. Qed.
+
+(* hypotheses of C20_ieee_tick_distance_error(_relative), _tick_progress_error,
+   _tick_before_end, _first_rejected_sum, _tick_time_error and
+   _span_weakly_chronological (forward span 0 and reversed span 1), together,
+   with three ticks per span *)
+Example C20_ieee_tick_theorems_nonvacuous :
+  exists (td : F64) (ds : list F64),
+  is_finite exLen = true /\ (pow2 (-1022) <= B2R exLen)%R /\
+  dists_ok ops64 exLen exMdfe td ds /\ (2 < length ds)%nat /\
+  is_finite (p_dur exP) = true /\ (0 <= B2R (p_dur exP))%R /\
+  is_finite (D.add (sp_sst ops64 (p_start exP) (p_dur exP) 0) (p_dur exP)) = true /\
+  is_finite (D.add (sp_sst ops64 (p_start exP) (p_dur exP) 1) (p_dur exP)) = true /\
+  is_finite (D.sub exLen exMdfe) = true /\ is_finite td = true /\ (0 < B2R td)%R.
+Proof. exact ex_hyps. Qed.
+
+(* ... and what C20_ieee_tick_distance_error then says about the third tick:
+   within 2 * ulp(1000)/2 = 2^-43 of 3 * td *)
+Example C20_ieee_tick_distance_error_instance :
+  exists (td : F64) (ds : list F64),
+  dists_ok ops64 exLen exMdfe td ds /\ (2 < length ds)%nat /\
+  (Rabs (B2R (nth 2 ds D.zero) - INR 3 * B2R td) <= INR 2 * (/ 2 * pow2 (-43)))%R.
+Proof.
+  destruct ex_hyps as (td & ds & Fl & _ & Hok & Hl & _). exists td, ds.
+  split; [exact Hok|]. split; [exact Hl|].
+  rewrite <- ulp64_1000, <- (proj1 ex_len_R).
+  exact (proj2 (proj2 (proj2 (proj2 (proj2 (C20_ieee_tick_distance_error exLen exMdfe td ds Fl Hok 2%nat Hl)))))).
+Qed.
+
+(* hypotheses of C20_ieee_same_ticks_every_span and of the C20_ieee_stream_*
+   theorems: the stream completes, has 2 spans, span duration 1000 *)
+Example C20_ieee_stream_theorems_nonvacuous :
+  exists (td : F64) (ds : list F64) (evs : list (event F64)),
+  events_spec ops64 50 exP = Done evs /\ p_n exP = 2 /\
+  dists_ok ops64 exLen exMdfe td ds /\ length ds = 3%nat /\
+  is_finite (p_dur exP) = true /\ B2R (p_dur exP) = 1000%R.
+Proof.
+  destruct ex_stream as (td & ds & evs & He & Hok & Hl). exists td, ds, evs.
+  split; [exact He|]. split; [reflexivity|]. split; [exact Hok|]. split; [exact Hl|].
+  split; [exact (proj2 ex_dur_R) | exact (proj1 ex_dur_R)].
+Qed.
+
+(* hypotheses of C20_ieee_span_start_error, _repeat_time_error, _tail_time_error,
+   _last_tick_time_error and _last_tick_progress_error: C20_round_example_no_overflow
+   (entries 1, 2, 4, 5, 6, 7) with |2| < 2^53, |2 - 1| < 2^53 and dur = 1000 > 0 *)
+Example C20_ieee_closed_form_theorems_nonvacuous :
+  Z.abs 2 < 2 ^ 53 /\ Z.abs (2 - 1) < 2 ^ 53 /\ (0 < B2R (p_dur exP))%R /\
+  is_finite (ev_time (sp_tail ops64 (p_start exP) (p_dur exP) 2)) = true /\
+  is_finite (D.add (p_start exP) (D.div (D.mul (D.of_Z 2) (p_dur exP)) (D.of_Z 2))) = true /\
+  is_finite (D.add (D.add (sp_sst ops64 (p_start exP) (p_dur exP) (2 - 1)) (p_dur exP)) (c_tail_leniency ops64)) = true.
+Proof.
+  split; [reflexivity|]. split; [reflexivity|].
+  split; [rewrite (proj1 ex_dur_R); exact (IZR_lt 0 1000 eq_refl)|].
+  split; [exact ex_tail_fin | exact ex_last_tick_fin].
+Qed.
